@@ -83,8 +83,9 @@ func propC20(c *ctx) error {
 	}
 	r := newRng(c.seed, "C20")
 	defaultKw := []kwSpec{{"T", 0, 1, 0}, {"N", 0, 1, 2}, {"N64", 0, 1, 2}, {"X", 1, 2, 0}, {"XN", 1, 2, 3}, {"XN64", 1, 2, 3}, {"__", 0, 1, 0}, {"_n", 0, 1, 2}, {"_x", 1, 2, 0}, {"_xn", 1, 2, 3}}
-	customKw := []kwSpec{{"tr", 0, 1, 0}, {"trn", 0, 1, 2}, {"pgettext", 1, 2, 0}, {"second", 0, 2, 0}, {"zero", 0, 0, 0}}
-	customFlag := "tr;trn:1,2;pgettext:1c,2;second:2;zero:0"
+	// (ctxlast / pl3: the CONTEXT is the last configured position — a call without it has too few arguments)
+	customKw := []kwSpec{{"tr", 0, 1, 0}, {"trn", 0, 1, 2}, {"pgettext", 1, 2, 0}, {"second", 0, 2, 0}, {"zero", 0, 0, 0}, {"ctxlast", 2, 1, 0}, {"pl3", 3, 1, 2}}
+	customFlag := "tr;trn:1,2;pgettext:1c,2;second:2;zero:0;ctxlast:2c,1;pl3:3c,1,2"
 	strs := []string{"hello", "Hello, World", "it's", "say \"hi\"", "a\\b", "line1\nline2", "tab\there", "é✓", "100%", "{braces}", "${x}", "", "plural form", "ctx", "trail\\", "\\'q"}
 	work := filepath.Join(c.root, ".work", fmt.Sprintf("xtpl-%d", os.Getpid()))
 	defer os.RemoveAll(work)
@@ -229,6 +230,14 @@ func propC20(c *ctx) error {
 				allBlocks = append(allBlocks, call)
 				sb.WriteString(line + "\n")
 				curLine += 1 + strings.Count(line, "\n")
+			}
+			if kwFlag != "" && f == 0 {
+				// always present with the custom keywords: calls that omit only the (last) context argument add nothing
+				for _, call := range []string{"ctxlast('Close')", "pl3('One file', '%d files')", "ctxlast(name)"} {
+					sb.WriteString(`<p ` + ap + `title="${` + call + `}">o</p>` + "\n")
+					allBlocks = append(allBlocks, call)
+					curLine++
+				}
 			}
 			if kwFlag == "" && f == 0 {
 				// always present: context keywords called with an EMPTY msgid and an empty / a non-literal context — their
